@@ -11,6 +11,8 @@ import (
 	"sort"
 	"strings"
 	"testing"
+
+	"github.com/ontio/ontology/common"
 )
 
 type lqTraceIn struct {
@@ -136,7 +138,7 @@ func TestVerifLQTrace(t *testing.T) {
 		if tr > 0 {
 			out.Emit(map[string]interface{}{"event": "Reset", "fresh": fresh})
 		}
-		if tin.Mode == "long" {
+		if tin.Mode == "long" || tin.Mode == "window" {
 			lqLongTrace(r, &tin, rng, out)
 		} else {
 			lqMixedTrace(r, &tin, rng, out)
@@ -225,7 +227,26 @@ func lqLongTrace(r *lqRun, tin *lqTraceIn, rng *rand.Rand, out *vhOut) {
 		restart[h] = true
 	}
 	paths := []string{"wire", "mem", "exec"}
-	for h := 1; h <= tin.LongN && r.ls != nil; h++ {
+	start := 1
+	if tin.Mode == "window" {
+		// the first LongN-4 blocks are empty blocks committed without observation (one "Bulk" event names them)
+		bulk := tin.LongN - 4
+		sh := lqShape{Ntx: 0, Logs: [][2]string{}}
+		r.in.Shapes[lqShapeName(sh)] = sh
+		var bulkNames []string
+		for h := 1; h <= bulk; h++ {
+			blk := r.n.vlMakeBlock(r.ls, nil, nil)
+			vhMust(r.ls.AddBlock(blk, nil, common.UINT256_EMPTY))
+			id := append(append([]string(nil), r.names...), lqShapeName(sh))
+			r.names = id
+			r.blocks = append(r.blocks, blk)
+			r.idOf[blk.Hash()] = id
+			bulkNames = append(bulkNames, lqShapeName(sh))
+		}
+		out.Emit(map[string]interface{}{"event": "Bulk", "names": bulkNames, "res": "ok"})
+		start = bulk + 1
+	}
+	for h := start; h <= tin.LongN && r.ls != nil; h++ {
 		sh := lqShape{Ntx: 0, Logs: [][2]string{}}
 		if rng.Intn(40) == 0 {
 			sh.Ntx = 1 + rng.Intn(2)
